@@ -391,7 +391,11 @@ func textCases(tier string) []textCase {
 			if _, ok := docMeteringMode[i]; ok && (err != nil || int(v) != i) {
 				fs.add("UnmarshalJSON(MarshalJSON(v))!=v", fmt.Sprintf("%d -> %s -> %d (err %v)", i, b, v, err))
 			}
-			if err == nil {
+			if err != nil {
+				// "Marshal(Unmarshal(Marshal(v))) == Marshal(v) for every v": the decoder must at least accept what the
+				// encoder of the same type wrote
+				fs.add("UnmarshalJSON rejects the output of MarshalJSON", fmt.Sprintf("%d -> %s -> err %v", i, b, err))
+			} else {
 				b2, _ := v.MarshalJSON()
 				if !bytes.Equal(b, b2) {
 					fs.add("idempotence", fmt.Sprint(i))
